@@ -16,11 +16,25 @@ a tape-chosen prefix limit (64, 10, 5 or 3 base-128 digits).
   handed a hand-built element with an over-long prefix, a LIST or STRING length
   above SIZE_LIMIT - or exactly AT the limit, which must be accepted.
 
-Oracle: received expressions == sent ones (tuples as lists, floats bit for bit,
-no int/float/bool mixing), in order; an out-of-limit value raises BananaError
-from sendEncoded and writes nothing; an over-limit prefix/length raises
-BananaError from dataReceived (by the end of the stream) and nothing after it is
-delivered; an at-limit prefix/length is accepted.
+* limit-change family (a third of the runs, both kinds above): the RECEIVING application changes the prefix limit in
+  the middle of the stream - with Banana.setPrefixLimit on the instance (raised or lowered, also by one digit) or with
+  the module-level banana.setPrefixLimit (which by its documentation concerns connections established later only) -
+  either from inside expressionReceived at a tape-chosen message, so that the items that follow in the SAME delivery
+  must already be judged by the new limit, or between two deliveries (possibly with an item partly buffered).  The
+  sender's own limit is then the larger of the two (rarely 64 or the smaller one), integers are sized around both
+  limits, the hand-built element is sized against the old or the new limit.
+
+Oracle: a reference decoder at item level (models.banana.judge) walks the items in order with the limit in force:
+the old one up to and including the item in whose callback the limit was changed, the new one after it; an item
+whose longest prefix exceeds the limit in force, or that announces a length above SIZE_LIMIT, is refused.  Received
+expressions == the accepted ones (tuples as lists, floats bit for bit, no int/float/bool mixing), in order; an
+out-of-limit value raises BananaError from sendEncoded and writes nothing; a refused item raises BananaError from
+dataReceived (by the end of the stream) and nothing after it is delivered; an at-limit prefix/length is accepted.
+No verdict: on the one item that was in progress when the limit was changed BETWEEN deliveries if its longest prefix
+lies between the two limits (the statement does not say which limit judges it; the real decoder re-judges a partly
+buffered prefix/string header but not a list header already consumed); on hand-built elements within the limit in
+force that are well delimited but unusual (all-zero digits, INT/NEG beyond 32 bits).  After a module-level change a
+connection established afterwards must work with the new limit (encode refusal, round-trip at the limit, decode refusal).
 """
 import struct
 
@@ -34,45 +48,63 @@ ID = "C44"
 ENGINE = "net"
 LEVEL = "exploration"
 TECHNIQUE = ("deterministic simulation: seeded expression grammar with boundary values sent between two real Banana "
-             "instances (dialect negotiated over the link) under seeded segmentation, plus hand-built over-limit elements")
+             "instances (dialect negotiated over the link) under seeded segmentation, plus hand-built over-limit elements and "
+             "prefix limits changed by the receiving application from inside expressionReceived / between deliveries")
 QUICK_RUNS = 50000
 TWIN_P = 0.08   # this share of the runs drives two independent instances of the scenario one after the other (detsim.runner._run_scenario)
 BATCH = 100
 COMPONENTS = {
     "real": ["twisted.spread.banana.Banana (connectionMade negotiation, sendEncoded/_encode, dataReceived, setPrefixLimit)",
-             "twisted.spread.banana.int2b128/b1282int"],
-    "stub": ["TCP transport and delivery segmentation (detsim.net.Link / cut)", "expressionReceived recorder"],
+             "twisted.spread.banana.setPrefixLimit (module level)", "twisted.spread.banana.int2b128/b1282int"],
+    "stub": ["TCP transport and delivery segmentation (detsim.net.Link / cut)",
+             "expressionReceived recorder that may call setPrefixLimit at a tape-chosen message"],
 }
 RULE = ("run = dialect negotiation over the link, then 1..4 expressions (some outside the limits) sent with sendEncoded, or "
-        "real expressions followed by a hand-built over-limit / at-limit element, delivered in tape-chosen pieces; "
+        "real expressions followed by a hand-built over-limit / at-limit element, delivered in tape-chosen pieces; in a third of "
+        "the runs the receiving application changes the prefix limit (instance or module-level setPrefixLimit; raised or lowered) "
+        "from inside expressionReceived at a tape-chosen message or between two deliveries, with items sized around both limits; "
         "non-trivial = the payload stream was cut at least once")
 ASSUMPTIONS = [
     "prefix limits below 3 digits are not used (string/list lengths up to SIZE_LIMIT need 3 digits)",
     "bool values are not sent (bool is an int subclass; the statement speaks of integers)",
     "the transport stops delivering after dataReceived raised",
+    "a limit changed inside expressionReceived applies to every item after the expression being handed over, also in the same "
+    "delivery (nothing of a later item has been judged at that moment); for a change between deliveries the item in progress "
+    "gets no verdict when its longest prefix lies between the two limits",
+    "the module-level setPrefixLimit leaves established connections alone (its documentation: 'connections established after "
+    "this call'); it is reset to 64 at the end of every run",
+    "the class attribute Banana.sizeLimit is never consulted by the unchanged decoder/encoder (SIZE_LIMIT is) and is undocumented: "
+    "it is not varied and no verdict depends on it",
 ]
 
 VOCAB_WORDS = [b"None", b"list", b"tuple", b"message", b"answer", b"dictionary", b"uncache", b"class"]
 
 
 class B(banana.Banana):
+    hook = None     # application behaviour inside expressionReceived: called with the number of expressions received so far
+
     def __init__(self, isClient, got):
         banana.Banana.__init__(self, isClient)
         self.got = got
 
     def expressionReceived(self, obj):
         self.got.append(obj)
+        if self.hook is not None:
+            self.hook(len(self.got))
 
 
-def gen_int(sim, limit):
+def gen_int(sim, limit, cap=None):
+    """An integer sized around `limit` digits (the limit of interest) that the sender - whose own limit is `cap` digits -
+    can encode; with cap > limit the values just above `limit` digits occur as well."""
     top = 2 ** (7 * limit) - 1
+    captop = top if cap is None else 2 ** (7 * cap) - 1
     k = sim.draw_weighted([("small", 4), ("edge", 6), ("big", 3)], "intkind")
     if k == "small":
         return sim.draw_int(-300, 300, "int")
     if k == "edge":
         edges = [0, 1, -1, 127, 128, -127, -128, 16383, 16384, 2 ** 31 - 1, 2 ** 31, -2 ** 31, -2 ** 31 - 1,
-                 top, -top, top - 1, -(top - 1), 2 ** (7 * (limit - 1)), -2 ** (7 * (limit - 1))]
-        return sim.draw_choice([v for v in edges if abs(v) <= top], "edge")
+                 top, -top, top - 1, -(top - 1), 2 ** (7 * (limit - 1)), -2 ** (7 * (limit - 1)), top + 1, -(top + 1)]
+        return sim.draw_choice([v for v in edges if abs(v) <= captop], "edge")
     nbits = sim.draw_int(8, 7 * limit, "nbits")
     v = int.from_bytes(sim.draw_blob((nbits + 7) // 8), "big") & ((1 << nbits) - 1)
     return -v if sim.draw_bool(0.5, "neg") else v
@@ -100,18 +132,18 @@ def gen_bytes(sim, budget):
     return sim.draw_blob(bm.SIZE_LIMIT - sim.draw_choice([0, 1], "below"))
 
 
-def gen_expr(sim, limit, depth, budget):
+def gen_expr(sim, limit, depth, budget, cap=None):
     kinds = [("int", 4), ("bytes", 3), ("float", 2)]
     if depth < 6:
         kinds.append(("list", 5 if depth == 0 else 2))
     k = sim.draw_weighted(kinds, "kind")
     if k == "int":
-        return gen_int(sim, limit)
+        return gen_int(sim, limit, cap)
     if k == "bytes":
         return gen_bytes(sim, budget)
     if k == "float":
         return gen_float(sim)
-    items = [gen_expr(sim, limit, depth + 1, budget) for _ in range(sim.draw_int(0, 4, "nitems"))]
+    items = [gen_expr(sim, limit, depth + 1, budget, cap) for _ in range(sim.draw_int(0, 4, "nitems"))]
     return tuple(items) if sim.draw_bool(0.3, "tuple") else items
 
 
@@ -149,7 +181,52 @@ def show(obj, depth=0):
     return repr(obj)
 
 
+LIMITS = [64, 10, 5, 3]
+
+
+def late_connection(sim, limit):
+    """The module-level setPrefixLimit(limit) was called: a connection established afterwards works with that limit."""
+    g1, g2 = [], []
+    c2, s2 = B(1, g1), B(0, g2)
+    l2 = net.Link(sim, c2, s2)
+    l2.connect()
+    with sim.guard("negotiation-raised", "late-connection"):
+        l2.run()
+    top = 2 ** (7 * limit) - 1
+    neg = sim.draw_bool(0.5, "late-neg")
+    v = -top if neg else top
+    with sim.guard("valid-value-refused", "late-connection"):
+        s2.sendEncoded([v])
+    with sim.guard("valid-stream-refused", "late-connection"):
+        l2.run()
+    sim.check("expressions-equal", len(g1) == 1 and bm.same(g1[0], [v]) and not g2, "late-connection",
+              lambda: "module-level prefix limit %d: a later connection received %s for %s" % (limit, [show(x) for x in g1], show([v])))
+    raised = None
+    try:
+        s2.sendEncoded(-(top + 1) if neg else top + 1)
+    except banana.BananaError as e:
+        raised = e
+    sim.check("outside-limit-encoded", raised is not None, "late-connection",
+              lambda: "module-level prefix limit %d: a later connection encoded an integer of %d digits" % (limit, limit + 1))
+    l2.b.write(b"\x01" * (limit + 1) + (bm.LONGNEG if neg else bm.LONGINT))
+    raised = None
+    try:
+        l2.run()
+    except banana.BananaError as e:
+        raised = e
+    sim.check("over-limit-decoded", raised is not None and len(g1) == 1, "late-connection",
+              lambda: "module-level prefix limit %d: a later connection accepted a prefix of %d digits (received %s)" % (limit, limit + 1, [show(x) for x in g1]))
+    sim.probe("late_connection_checked")
+
+
 def run(sim):
+    try:
+        _run(sim)
+    finally:
+        banana.setPrefixLimit(64)
+
+
+def _run(sim):
     got_c, got_s = [], []
     client, server = B(1, got_c), B(0, got_s)
     offer = sim.draw_choice([[b"pb", b"none"], [b"none", b"pb"]], "offer")
@@ -160,34 +237,57 @@ def run(sim):
         link.run()
     sim.check("negotiated", client.currentDialect == offer[0] and server.currentDialect == offer[0] and not got_c and not got_s,
               "dialect", lambda: "offer %r: client %r server %r, expressions %r %r" % (offer, client.currentDialect, server.currentDialect, got_c, got_s))
-    limit = sim.draw_choice([64, 10, 5, 3], "prefixlimit")
+    limit = sim.draw_choice(LIMITS, "prefixlimit")      # the receiver's limit at the start
+    # limit-change family: the receiving application changes the limit in the middle of the stream
+    change = None
+    send_limit = limit
+    if sim.draw_bool(0.33, "limit-change"):
+        new = sim.draw_choice([v for v in LIMITS + [limit + 1, limit - 1] if v != limit and v >= 3], "new-limit")
+        how = sim.draw_weighted([("instance", 6), ("module", 2)], "change-how")          # Banana.setPrefixLimit / banana.setPrefixLimit
+        where = sim.draw_weighted([("callback", 7), ("between", 3)], "change-where")     # inside expressionReceived / between two deliveries
+        at = sim.draw_weighted([(0, 5), (1, 3), (2, 1)], "change-at") if where == "callback" else None
+        change = {"new": new, "how": how, "where": where, "at": at, "fired": False, "got": None, "coalesced": False}
+        # the sender may send whatever either limit admits (or, rarely, more / less than that)
+        send_limit = sim.draw_weighted([(max(limit, new), 6), (64, 1), (min(limit, new), 1)], "send-limit")
     client.setPrefixLimit(limit)
     server.setPrefixLimit(limit)
     c2s = sim.draw_bool(0.5, "server-sends")      # True: the server is the sender
-    sender, recv_name, got = (server, "A", got_c) if c2s else (client, "B", got_s)
+    sender, receiver, recv_name, got = (server, client, "A", got_c) if c2s else (client, server, "B", got_s)
+    sender.setPrefixLimit(send_limit)
     st = link.b if c2s else link.a          # sender's transport
     mode = sim.draw_weighted([("roundtrip", 6), ("decode-refusal", 4)], "mode")
-    sim.config = {"dialect": offer[0].decode(), "prefix_limit": limit, "sender": "server" if c2s else "client", "mode": mode}
+    sim.config = {"dialect": offer[0].decode(), "prefix_limit": limit, "sender": "server" if c2s else "client", "mode": mode,
+                  "limit_change": None if change is None else "%s/%s->%d" % (how, where, new), "send_limit": send_limit}
     del st.written[:]
-    expected = []
+    items = []              # bm.Item per element on the wire, in order
     log = []
     budget = [1]
     ends = []
-    refusal = None          # (kind, must_raise)
+    new_eff = limit if change is None or change["how"] == "module" else change["new"]    # the receiver's limit after the change
+
+    def around():
+        """The limit the next expression's integers are sized around."""
+        if change is None:
+            return limit
+        if change["where"] == "callback" and len(items) <= change["at"]:
+            w = [(limit, 6), (change["new"], 1), (send_limit, 1)]
+        else:
+            w = [(change["new"], 3), (limit, 3), (send_limit, 1)]
+        return min(sim.draw_weighted(w, "around"), send_limit)
 
     def send_real():
-        e = gen_expr(sim, limit, 0, budget)
+        e = gen_expr(sim, around(), 0, budget, send_limit)
         log.append(show(e))
         sim.event("send", show(e))
         with sim.guard("valid-value-refused"):
             sender.sendEncoded(e)
-        expected.append(bm.normalise(e))
+        items.append(bm.Item("real", bm.max_prefix(e), bm.normalise(e)))
         ends.append(len(st.written))
 
     if mode == "roundtrip":
-        for _ in range(sim.draw_int(1, 4, "nexpr")):
+        for _ in range(sim.draw_int(1, 4, "nexpr") + (1 if change else 0)):
             if sim.draw_bool(0.25, "outside"):
-                kind, v = gen_outside(sim, limit)
+                kind, v = gen_outside(sim, send_limit)
                 before = len(st.written)
                 log.append("OUTSIDE:" + kind)
                 sim.event("send-outside", kind, show(v))
@@ -202,50 +302,84 @@ def run(sim):
                 except Exception as e:
                     sim.fail("unexpected-exception", "encode:" + type(e).__name__, "%r for %s" % (e, show(v)))
                 sim.check("outside-limit-encoded", raised is not None, kind,
-                          lambda: "sendEncoded accepted %s (prefix limit %d) and wrote %d bytes" % (show(v), limit, len(st.written) - before))
+                          lambda: "sendEncoded accepted %s (prefix limit %d) and wrote %d bytes" % (show(v), send_limit, len(st.written) - before))
                 sim.check("refusal-wrote-bytes", len(st.written) == before, kind,
                           lambda: "sendEncoded raised but wrote %d bytes" % (len(st.written) - before))
             else:
                 send_real()
     else:
-        for _ in range(sim.draw_int(0, 2, "nbefore")):
+        for _ in range(sim.draw_int(0, 2, "nbefore") + (1 if change else 0)):
             send_real()
         kind = sim.draw_weighted([("prefix-over", 4), ("prefix-at", 3), ("prefix-over-no-type", 2), ("list-over", 2), ("list-at", 1),
                                   ("string-over", 2), ("string-at", 1)], "crafted")
+        # the limit the hand-built element is sized against: with a change, the old or the new one
+        craft = limit if change is None else sim.draw_choice([change["new"], limit], "craft-limit")
         wrap = sim.draw_bool(0.3, "inside-list")
         raw = bm.b128(2) + bm.LIST + bm.b128(7) + bm.INT if wrap else b""
         digit = bytes([sim.draw_choice([1, 0x7F, 0, 0x40], "digit")])
         if kind == "prefix-over":
-            raw += digit * (limit + sim.draw_choice([1, 2, 10], "extra")) + sim.draw_choice([bm.INT, bm.LONGINT, bm.NEG, bm.LONGNEG, bm.STRING, bm.LIST], "type")
-            refusal = (kind, True)
+            n = craft + sim.draw_choice([1, 2, 10], "extra")
+            raw += digit * n + sim.draw_choice([bm.INT, bm.LONGINT, bm.NEG, bm.LONGNEG, bm.STRING, bm.LIST], "type")
+            item = bm.Item(kind, n, bm.INCOMPLETE)      # what it is for a receiver whose limit admits n digits: see below
         elif kind == "prefix-over-no-type":
-            raw += digit * (limit + sim.draw_choice([1, 5, 40], "extra"))
-            refusal = (kind, True)
+            n = craft + sim.draw_choice([1, 5, 40], "extra")
+            raw += digit * n
+            item = bm.Item(kind, n, bm.INCOMPLETE)
         elif kind == "prefix-at":
-            # exactly `limit` digits: the largest prefix that must still be accepted
-            digits = digit * (limit - 1) + b"\x01"
+            # exactly `craft` digits: the largest prefix that must still be accepted
+            digits = digit * (craft - 1) + b"\x01"
             value = sum(d << (7 * i) for i, d in enumerate(digits))
             neg = sim.draw_bool(0.5, "neg")
             raw += digits + (bm.LONGNEG if neg else bm.LONGINT)
-            refusal = (kind, False)
-            expected.append([7, -value if neg else value] if wrap else (-value if neg else value))
+            item = bm.Item(kind, craft, [7, -value if neg else value] if wrap else (-value if neg else value))
         elif kind == "list-over":
             raw += bm.b128(bm.SIZE_LIMIT + sim.draw_choice([1, 2, 1000], "over")) + bm.LIST
-            refusal = (kind, True)
+            item = bm.Item(kind, 3, bm.INCOMPLETE, over=True)
         elif kind == "list-at":
             raw += bm.b128(bm.SIZE_LIMIT) + bm.LIST + bm.b128(1) + bm.INT
-            refusal = (kind, False)
+            item = bm.Item(kind, 3, bm.INCOMPLETE)
         elif kind == "string-over":
             raw += bm.b128(bm.SIZE_LIMIT + sim.draw_choice([1, 2, 1000], "over")) + bm.STRING + b"abc"
-            refusal = (kind, True)
+            item = bm.Item(kind, 3, bm.INCOMPLETE, over=True)
         else:
             raw += bm.b128(bm.SIZE_LIMIT) + bm.STRING + b"abc"
-            refusal = (kind, False)
+            item = bm.Item(kind, 3, bm.INCOMPLETE)
+        if kind == "prefix-over":
+            # an over-long prefix WITH a type byte is a complete element for a receiver whose limit admits it (possible only
+            # after a limit change).  A string/list length above SIZE_LIMIT has to be refused all the same; a canonical
+            # integer of the right family has to be delivered; anything else (all-zero digits, INT/NEG beyond 32 bits) is
+            # a well-delimited element the statement says nothing about
+            t = raw[-1:]
+            value = sum(d << (7 * i) for i, d in enumerate(raw[-1 - n:-1]))
+            if t in (bm.STRING, bm.LIST) and value > bm.SIZE_LIMIT:
+                item.over = True
+            elif value and (t in (bm.LONGINT, bm.LONGNEG) or (t == bm.INT and value < 2 ** 31) or (t == bm.NEG and value <= 2 ** 31)):
+                value = -value if t in (bm.NEG, bm.LONGNEG) else value
+                item.value = [7, value] if wrap else value
+            else:
+                item.value = bm.UNSPECIFIED
         log.append("CRAFTED:%s%s" % (kind, "(in list)" if wrap else ""))
         sim.event("crafted", kind, raw)
         sim.probe("crafted_" + kind)
         st.write(raw)
+        items.append(item)
         ends.append(len(st.written))
+
+    # what the receiving application does inside expressionReceived
+    delivered_upto = [0]     # stream offset of the end of the delivery in progress
+    if change is not None and change["where"] == "callback":
+        def hook(count):
+            if count != change["at"] + 1 or change["fired"]:
+                return
+            change["fired"] = True
+            sim.event("limit-change", "callback", change["how"], change["new"])
+            sim.fault("limit_change_in_callback")
+            change["coalesced"] = delivered_upto[0] > ends[change["at"]]
+            if change["how"] == "instance":
+                receiver.setPrefixLimit(change["new"])
+            else:
+                banana.setPrefixLimit(change["new"])
+        receiver.hook = hook
 
     # deliver what the sender wrote
     side = "B" if c2s else "A"              # name of the SENDER's transport
@@ -254,10 +388,18 @@ def run(sim):
     wire = bytes(link.flight[recv_name])
     styles = None if len(wire) < 100000 else sim.draw_choice(["whole", "one", "few", "edges"], "bigcut")
     pieces = net.cut(sim, wire, styles, ends)
-    ctx = lambda: "dialect %s prefix limit %d items %r pieces %r" % (offer[0].decode(), limit, log, [len(p) for p in pieces][:16])
+    change_after = None
+    if change is not None and change["where"] == "between" and pieces:
+        change_after = sim.draw_int(0, len(pieces) - 1, "change-after-piece")
+    all_values = [it.value for it in items if it.value is not bm.INCOMPLETE and it.value is not bm.UNSPECIFIED]
+    most = len(all_values) + (1 if items and items[-1].value is bm.UNSPECIFIED else 0)
+    ctx = lambda: "dialect %s prefix limit %d (sender %d) %sitems %r pieces %r" % (
+        offer[0].decode(), limit, send_limit,
+        "" if change is None else "limit change %r " % (sorted(change.items()),), log, [len(p) for p in pieces][:16])
     raised = None
-    for p in pieces:
+    for pi, p in enumerate(pieces):
         sim.step(6000)
+        delivered_upto[0] += len(p)
         try:
             link.do("deliver", recv_name, len(p))
         except Violation:
@@ -267,22 +409,68 @@ def run(sim):
             break
         except Exception as e:
             sim.fail("unexpected-exception", "decode:" + type(e).__name__, lambda: "%r; %s" % (e, ctx()))
-        sim.check("received-prefix", len(got) <= len(expected) and all(bm.same(a, b) for a, b in zip(got, expected)), mode,
-                  lambda: "receiver has %s, sent %s; %s" % ([show(x) for x in got], [show(x) for x in expected], ctx()))
-    if refusal is not None and refusal[1]:
-        sim.check("over-limit-decoded", raised is not None, refusal[0], lambda: "no BananaError; received %s; %s" % ([show(x) for x in got], ctx()))
-        sim.check("received-prefix", len(got) <= len(expected) and all(bm.same(a, b) for a, b in zip(got, expected)), mode,
+        sim.check("received-prefix", len(got) <= most and all(bm.same(a, b) for a, b in zip(got, all_values)), mode,
+                  lambda: "receiver has %s, sent %s; %s" % ([show(x) for x in got], [show(x) for x in all_values], ctx()))
+        if pi == change_after:
+            # the application changes the limit between two deliveries; the item in progress may be partly buffered
+            change["fired"] = True
+            change["got"] = len(got)
+            sim.event("limit-change", "between", change["how"], change["new"])
+            sim.fault("limit_change_between_deliveries")
+            if delivered_upto[0] < len(wire) and delivered_upto[0] not in ends:
+                sim.probe("limit_changed_with_item_partly_buffered")
+            if change["how"] == "instance":
+                receiver.setPrefixLimit(change["new"])
+            else:
+                banana.setPrefixLimit(change["new"])
+    receiver.hook = None
+
+    # the reference decoder's verdict
+    after_index = unsure_index = None
+    if change is not None and change["fired"] and change["how"] == "instance":
+        if change["where"] == "callback":
+            after_index = change["at"]
+        else:
+            unsure_index = change["got"]
+    expected, refused, unsure = bm.judge(items, limit, new_eff, after_index, unsure_index, len(got) if raised is not None else None)
+    tag = mode
+    if change is not None and change["fired"]:
+        tag += "+limit-" + ("module" if change["how"] == "module" else "raised" if change["new"] > limit else "lowered") + "-" + change["where"]
+        sim.probe("limit_" + ("module" if change["how"] == "module" else "raised" if change["new"] > limit else "lowered"))
+        if change["coalesced"]:
+            sim.probe("limit_changed_with_more_items_in_same_delivery")
+        lo, hi = min(limit, change["new"]), max(limit, change["new"])
+        first_after = change["at"] + 1 if change["where"] == "callback" else change["got"]
+        if any(lo < it.need <= hi for it in items[first_after:]):
+            sim.probe("item_between_old_and_new_limit_after_change")
+    if unsure:
+        sim.probe("no_verdict_item_in_progress_at_change")
+    if refused is not None and refused is not bm.UNSPECIFIED and refused.kind == "real":
+        sim.probe("real_expression_over_receiver_limit")
+    if refused is bm.UNSPECIFIED:
+        # the stream continues with an element on which there is no verdict: only what came before it is judged
+        sim.probe("no_verdict_unusual_element_within_limit")
+        sim.check("received-prefix", len(got) <= len(expected) + 1 and all(bm.same(a, b) for a, b in zip(got, expected)), tag,
+                  lambda: "receiver has %s, sent %s + one unusual element; %s" % ([show(x) for x in got], [show(x) for x in expected], ctx()))
+    elif refused is not None:
+        sim.check("over-limit-decoded", raised is not None, refused.kind if change is None else refused.kind + "+" + tag,
+                  lambda: "no BananaError; received %s; %s" % ([show(x) for x in got], ctx()))
+        sim.check("received-prefix", len(got) <= len(expected) and all(bm.same(a, b) for a, b in zip(got, expected)), tag,
                   lambda: "receiver has %s, sent %s; %s" % ([show(x) for x in got], [show(x) for x in expected], ctx()))
         # everything sent before the bad element arrives unless the error came first in the same delivery: no verdict on that
     else:
         if raised is not None:
-            clause = "at-limit-refused" if refusal is not None else "valid-stream-refused"
-            sim.fail(clause, refusal[0] if refusal else mode, lambda: "%r; %s" % (raised, ctx()))
-        sim.check("expressions-equal", len(got) == len(expected) and all(bm.same(a, b) for a, b in zip(got, expected)), mode,
+            crafted = items and items[-1].kind != "real" and len(got) >= len(items) - 1
+            clause = "at-limit-refused" if crafted and change is None else "valid-stream-refused"
+            sim.fail(clause, items[-1].kind if crafted and change is None else tag, lambda: "%r; %s" % (raised, ctx()))
+        sim.check("expressions-equal", len(got) == len(expected) and all(bm.same(a, b) for a, b in zip(got, expected)), tag,
                   lambda: "received %s, sent %s; %s" % ([show(x) for x in got], [show(x) for x in expected], ctx()))
     other = got_s if c2s else got_c
     sim.check("sender-quiet", not other, mode, lambda: "the sending side received %r" % (other,))
-    sim.state((offer[0], limit, mode, refusal[0] if refusal else len(expected), min(len(pieces), 6)))
+    if change is not None and change["fired"] and change["how"] == "module":
+        late_connection(sim, change["new"])
+    sim.state((offer[0], limit, mode, getattr(refused, "kind", "open") if refused else len(expected), min(len(pieces), 6),
+               None if change is None else (change["how"], change["where"], change["new"] > limit, change["fired"])))
     sim.nontrivial = len(pieces) > 1
 
 
@@ -301,4 +489,12 @@ MUTANTS = [
     "_encode list: size check disabled : caught (outside-limit-encoded:list)",
     "_encode float: NaN payload normalised : caught (received-prefix, floats bit for bit)",
     "_encode pb vocabulary: wrong symbol index : caught (received-prefix)",
+    "dataReceived: self.prefixLimit read once per call into a local (both checks) : caught (valid-stream-refused:roundtrip+limit-raised-callback, "
+    "over-limit-decoded:real+...+limit-lowered-callback, over-limit-decoded:prefix-over+decode-refusal+limit-lowered-callback)",
+    "dataReceived: only the 'no type byte yet' check uses the hoisted local : caught (over-limit-decoded:prefix-over-no-type+decode-refusal+limit-lowered-callback, "
+    "valid-stream-refused:...+limit-raised-callback)",
+    "dataReceived: only the check after the type byte uses the hoisted local : caught (same clauses)",
+    "dataReceived: 'len(num) > min(self.prefixLimit, _PREFIX_LIMIT)' (module-level call reaches live connections) : caught (valid-stream-refused:roundtrip+limit-module-callback/-between)",
+    "dataReceived: 'len(num) > max(self.prefixLimit, _PREFIX_LIMIT)' : caught (over-limit-decoded:prefix-over)",
+    "connectionMade: setPrefixLimit(64) instead of the module-level limit : caught (outside-limit-encoded:late-connection, valid-value-refused:late-connection)",
 ]
